@@ -26,7 +26,7 @@ import (
 func init() {
 	register(&Check{ID: "C16", Level: "fault_enumeration",
 		Rule: "exchanges through upstream.NewUpstream(\"udp://127.0.0.1:p\" | \"127.0.0.1:p\" | dial_addr with an unresolvable / dead URL host) against a fake server on one port; every exchange has a unique random question (name, type, class) and one script cell " +
-			"{udp: tc|ok|silent} x {tcp: ok|refuse|silent|garbage|close|slow (reply 700 ms after a 250-500 ms deadline)|okfin (reply, then FIN: later TCP legs meet a dead pooled connection)} (all 21 cells, equally often), a series of 70 failing TCP legs followed by a healthy one, one question asked three times whose UDP replies are truncated / complete / truncated (TCP, no TCP, TCP again), complete UDP replies whose question section is lower-cased or missing (no TCP), 12-32 concurrent callers, context deadlines 400-1000 ms against silent legs; plus a sequential series of TC=0 exchanges on a fresh upstream " +
+			"{udp: tc|ok|silent} x {tcp: ok|refuse|silent|garbage|close|slow (reply 700 ms after a 250-500 ms deadline)|okfin (reply, then FIN: later TCP legs meet a dead pooled connection)} (all 21 cells, equally often), a series of 70 failing TCP legs followed by a healthy one, one question asked three times whose UDP replies are truncated / complete / truncated (TCP, no TCP, TCP again), complete UDP replies whose question section is lower-cased or missing (no TCP), a hasty (300 ms) and a patient (3 s) caller asking the same question while the TCP side takes 700 ms (the patient one is served), 12-32 concurrent callers, context deadlines 400-1000 ms against silent legs; plus a sequential series of TC=0 exchanges on a fresh upstream " +
 			"after which the server must have accepted no TCP connection at all. One evaluation = one exchange. Distinct non-trivial cases = distinct tuples (address form, udp script, tcp script, qtype, qclass, outcome class, number of TCP arrivals of the question)",
 		Run: runC16})
 }
@@ -542,6 +542,7 @@ func runC16(c *Ctx) {
 	c16AfterFailures(c)
 	c16Repeat(c)
 	c16Echo(c)
+	c16Patient(c)
 	c16Slow(c)
 	c.Ev.Set("race_reports_logged_not_judged_here", upRaceReports(c))
 }
@@ -812,6 +813,48 @@ func c16Echo(c *Ctx) {
 		default:
 			c.Ev.Distinct("echo", kind, ex.Form)
 			c.Ev.Count("echo_replies_returned_as_received", 1)
+		}
+	}
+}
+
+// c16Patient: two callers ask the same question at about the same time; both UDP replies are
+// truncated, the TCP side answers after 700 ms. The first caller gives up after 300 ms, the second
+// has 3 s: whatever happens to the first caller's exchange, the second one receives the outcome of a
+// TCP exchange - the server is healthy and answers every TCP query it gets.
+func c16Patient(c *Ctx) {
+	e, err := c16NewEnv("listen")
+	if err != nil {
+		c.Inconclusive("C16 setup: " + err.Error())
+		return
+	}
+	defer e.close()
+	n := c.N(6, 40)
+	for i := 0; i < n && !c.Seen("tcp-outcome-not-returned:patient-caller"); i++ {
+		r := gen.New(c.Seed, "c16-patient", i)
+		hasty := c16Gen(r, 960000+i, "tc", "slow")
+		hasty.Form, hasty.DeadMs = "udp://", 300
+		patient := *hasty
+		patient.DeadMs = 3000
+		patient.CallerID = hasty.CallerID + 1
+		var wg sync.WaitGroup
+		wg.Add(2)
+		go func() { defer wg.Done(); c16Do(e, hasty) }()
+		go func() { defer wg.Done(); time.Sleep(time.Duration(r.Range(5, 60)) * time.Millisecond); c16Do(e, &patient) }()
+		wg.Wait()
+		c.Ev.Eval(2)
+		time.Sleep(3 * time.Millisecond)
+		lg := c16Collect(e)
+		w := c16Witness{Exchange: &patient, Rule: "patient", TCPSeen: lg.tcpQ[patient.Name], UDPSent: lg.udpR[patient.Name]}
+		switch {
+		case len(lg.udpR[patient.Name]) < 2:
+			c.Inconclusive("patient: a UDP query never arrived")
+		case !patient.Returned || patient.Leg != "T":
+			c.Violation("tcp-outcome-not-returned:patient-caller", fmt.Sprintf("two callers asked %q within 60 ms (UDP replies truncated, the TCP side answers after 700 ms): the first gave up after 300 ms, the second had 3 s and got no TCP answer: returned=%v leg=%q after %v: %s %s (TCP queries received: %d)", patient.Name, patient.Returned, patient.Leg, time.Duration(patient.TRet-patient.TCall), patient.ErrClass, patient.Err, len(lg.tcpQ[patient.Name])), w)
+		case patient.GotID != patient.CallerID:
+			c.Violation("returned-foreign-id:patient-caller", fmt.Sprintf("the patient caller of %q (id %d) got id %d", patient.Name, patient.CallerID, patient.GotID), w)
+		default:
+			c.Ev.Distinct("patient", hasty.Returned)
+			c.Ev.Count("patient_callers_served_over_tcp", 1)
 		}
 	}
 }
